@@ -126,6 +126,44 @@ def global_object_events():
     return sorted(holders), events
 
 
+def exception_dispatch():
+    """energy.check_exceptions: the if/elif chain as rows (type1, type2, callee, swapped?)"""
+    tree = ast.parse((common.REPO / "propka" / "energy.py").read_text())
+    fn = next((n for n in tree.body if isinstance(n, ast.FunctionDef) and n.name == "check_exceptions"), None)
+    rows = []
+    if fn is None:
+        TABLE_ERRORS["check_exceptions"] = "function not found"
+        return rows
+
+    def pairs(test):
+        """(t1, t2) combinations a test accepts: (a and b) or (c and d) ..."""
+        out = []
+        terms = test.values if isinstance(test, ast.BoolOp) and isinstance(test.op, ast.Or) else [test]
+        for t in terms:
+            vs = t.values if isinstance(t, ast.BoolOp) and isinstance(t.op, ast.And) else None
+            if not vs or len(vs) != 2:
+                raise ValueError("unexpected test shape")
+            d = {}
+            for c in vs:
+                if not (isinstance(c, ast.Compare) and isinstance(c.left, ast.Name) and isinstance(c.ops[0], ast.Eq) and isinstance(c.comparators[0], ast.Constant)):
+                    raise ValueError("unexpected comparison")
+                d[c.left.id] = c.comparators[0].value
+            out.append((d["res_type1"], d["res_type2"]))
+        return out
+    node = next((n for n in fn.body if isinstance(n, ast.If)), None)
+    try:
+        while isinstance(node, ast.If):
+            call = node.body[0].value
+            callee = call.func.id
+            swapped = [a.id for a in call.args[:2]] == ["group2", "group1"]
+            for a, b in pairs(node.test):
+                rows.append((a, b, callee, swapped))
+            node = node.orelse[0] if len(node.orelse) == 1 and isinstance(node.orelse[0], ast.If) else None
+    except (ValueError, AttributeError, KeyError, IndexError) as ex:
+        TABLE_ERRORS["check_exceptions"] = f"unexpected shape: {ex}"
+    return rows
+
+
 def bonds_tables():
     """offsets literal of find_bonds_for_atoms_using_boxes, distance constants and the distances dict of BondMaker"""
     import fractions
@@ -204,6 +242,9 @@ def regenerate():
     if len(skc) != 2:
         TABLE_ERRORS["sort_key_constants"] = "UNICODE_MULTIPLIER / RESIDUE_MULTIPLIER not found as integral literals"
     inv += ["From Coq Require Import ZArith.", "Definition sort_key_constants : list (string * Z) :=\n  " + clist([f"({cstr(k)}, {v}%Z)" for k, v in skc]) + ".", ""]
+    inv += ["(* energy.check_exceptions: (type1, type2, callee, arguments swapped) for every accepted pair of group types *)",
+            "Definition exception_dispatch : list (string * string * string * bool) :=\n  "
+            + clist([f"({cstr(a)}, {cstr(b)}, {cstr(c)}, {'true' if sw else 'false'})" for a, b, c, sw in exception_dispatch()]) + ".", ""]
     holders, events = global_object_events()
     inv += ["(* process-global objects (module-level / class-level instances of propka classes) and the self-attribute accesses of their methods *)",
             "Definition global_objects : list (string * string * string) :=\n  " + clist([f"({cstr(a)}, {cstr(b)}, {cstr(c)})" for a, b, c in holders]) + ".",
